@@ -82,6 +82,33 @@ CHECKS.update({
                 design='4.10'),
 })
 
+CHECKS.update({
+    'C12': dict(level='other', technique='item-level rules over the type-checked program (derived-impl inventory, field declaration order, who-may-write scan) + typestate and validator abstract interpretation for uniqueness of the representation',
+                text='Decides the structural preconditions of "x == y iff equal canonical strings; Eq/Ord/Hash consistent; order is field-wise": all 50 comparison/hash impls of the ten value types are the '
+                     'derived ones (no hand-written impl can disagree); fields are declared in the order the property states; the representation behind a canonical string is unique (sorted, duplicate-free '
+                     'collections, None for no variants, None for any case of "und", case normalised at construction, fields that Display does not print are never written); == &str compares the whole '
+                     'canonical string. The iff on concrete pairs is not executed.',
+                note='Necessary conditions (each, if broken, breaks the property on some pair). Injectivity of Display on canonical representations is the disjointness clause of C05. Trusted: semantics of derive (std).',
+                design='4.12'),
+    'C13': dict(level='other', technique='call-graph / origin rules on the two parsing entry points, exact byte-set analysis of the split predicates, pairwise comparison of the post-loop exits under both values of the flag',
+                text='Differential structure instead of differential execution: LanguageIdentifier::from_bytes and Locale parsing reach the same core parser body on an iterator split with the same byte set '
+                     '{-,_}, with the constants false / true; the flag is read only after the subtag loop and false only adds "leftover subtag => InvalidSubtag" (exits compared pairwise); with nothing left '
+                     'the extension parser returns the default extensions; Locale maps an identifier failure to InvalidLanguage and stores {id, extensions} unchanged; From/AsRef conversions wire the id field through.',
+                note='Equality of outputs on concrete inputs is not executed. Trusted: slice::split, Peekable (std).',
+                design='4.13'),
+    'C17': dict(level='other', technique='sibling-agreement rules on the integer packers/unpackers (byte order, width), origin rules on into_parts/from_parts, typestate of constructed variants, validator abstract interpretation',
+                text='Decides: From<subtag> for uN and from_raw_unchecked are inverse full-width packings with one byte order and nothing else applied (hence injective); into_parts/from_parts of '
+                     'LanguageIdentifier and Locale wire every field straight through in order; from_parts re-establishes sorted, duplicate-free, None-when-empty variants for any order/duplication; every '
+                     'subtag and extension validator is exact and normalising (so re-validating stored text is the identity).',
+                note='The re-parse of the extension string is the round-trip clause of C05. Equality on concrete values is not executed.',
+                design='4.17'),
+    'C19': dict(level='other', technique='origin / call-shape rules over the MIR of the serde impls (feature configuration serde) + validator abstract interpretation',
+                text='Decides: Serialize::serialize = serializer.serialize_str(self.to_string()) and nothing else; Deserialize hands a visitor that overrides only string visits to deserialize_str/string/any; '
+                     'each visit_* = parse::<LanguageIdentifier>(unchanged input).map_err(Error::custom); FromStr = from_bytes; no panic site in these bodies; the subtag validators are exact and normalising.',
+                note='serde\'s own dispatch (JSON escapes, Value path, default visit_* errors for non-strings) is trusted, not analysed. Parser/printer/round-trip behaviour is C02/C04/C05.',
+                design='4.19'),
+})
+
 NOT_YET = {}
 
 
